@@ -117,3 +117,17 @@ def rules(t):
     shared.share(t, out, "C18.m", "a completed handshake leaves no half-open entry behind (it would shadow the next handshake from that address): the promoted session is the entry removed from pending_clients", "C05", ("C05.c2",))
     shared.share(t, out, "C18.n", "every accepted replay-protected packet is recorded in the window, so a recorded datagram cannot be replayed to postpone the timeout of a silent peer", "C04", ("C04.g",))
     return out
+
+_rules_c18_w5b = rules
+def rules(t):
+    import rules.wave5 as W5
+    out = _rules_c18_w5b(t)
+    out.append(W5.confirm_kinds(t, "C18.k"))
+    return out
+
+_rules_C18_w6 = rules
+def rules(t, *a, **kw):
+    import rules.wave6 as W6
+    out = _rules_C18_w6(t, *a, **kw)
+    out.append(W6.client_refresh_total(t, "C18.o"))
+    return out
